@@ -123,7 +123,7 @@ NormMin(a, b) == MulDiv(PI8, Sq(Mn(a, b)), Sq(Mx(a, b)))
 PiCoef(a, b, D) == LET c == Case(a, b, D) IN
                    IF c \in {"apart", "extTangent"} THEN 0
                    ELSE IF c = "lens" THEN -1 ELSE Sq(Mn(a, b))
-ExactN(a, b, D) == IF PiCoef(a, b, D) = 0 THEN 0 ELSE NormMin(a, b)       \* only used when PiCoef # -1
+\* (the exact area is then PiCoef * pi, i.e. 0 or NormMin(a, b) in area units)
 
 \* closed forms of the lens area for equal discs (normalised by r^2 they do not depend on r); -1 = none
 ClosedN(a, b, D) == IF a = b /\ D = 2 * Sq(a) THEN HALFPI_M1
@@ -161,8 +161,6 @@ Enc(a, b, D) == LET k == PiCoef(a, b, D)  cf == ClosedN(a, b, D) IN
                 IF k # -1 THEN LET x == IF k = 0 THEN 0 ELSE NormMin(a, b) IN <<Mx(0, x - 1), x + 1>>
                 ELSE IF cf # -1 THEN <<cf - 1, cf + 1>>
                 ELSE <<LensLo(a, b, D), LensHi(a, b, D)>>
-EncLo(a, b, D) == Enc(a, b, D)[1]
-EncHi(a, b, D) == Enc(a, b, D)[2]
 
 \* how much the area can drop between squared distances D <= E: 2 rmin (sqrt(E) - sqrt(D)), rounded up; the area
 \* only changes while |a - b| <= d <= a + b, an interval of length 2 rmin, and never by more than pi rmin^2
